@@ -71,7 +71,7 @@ def enc_cases(ck, count, maxchunks=5, exhaustive_lengths=False):
             T = Ts[(i // 15) % len(Ts)] if n % 3 else r.choice(Ts)
             i += 1
             res.append(EncCase(n, cm, hm, T, rnd_key(r), rnd_seed(r), rnd_bytes(r, n), "len=%s" % lencls(n)))
-        return res + related_block_cases(ck, 45) + counter_carry_cases(ck)
+        return res + related_block_cases(ck, 45) + counter_carry_cases(ck) + constant_chunk_cases(ck)
     i = 0
     while len(res) < count:
         n = lens[(i * 7) % len(lens)] if r.random() < 0.45 else r.randrange(0, maxchunks * CH + 40)
@@ -79,7 +79,7 @@ def enc_cases(ck, count, maxchunks=5, exhaustive_lengths=False):
         T = Ts[(i // 3) % len(Ts)]
         i += 1
         res.append(EncCase(n, cm, hm, T, rnd_key(r), rnd_seed(r), rnd_bytes(r, n), "len=%s" % lencls(n)))
-    return res + related_block_cases(ck, max(4, count // 12)) + counter_carry_cases(ck)
+    return res + related_block_cases(ck, max(4, count // 12)) + counter_carry_cases(ck) + constant_chunk_cases(ck)
 
 
 # seeds whose first IV (SHA-1 of the seed, bytes 0..15) ends in FF FF FF Ex: a CTR stream started from it carries out of its low
@@ -94,6 +94,20 @@ def counter_carry_cases(ck):
         T = [1, 2, 1][j]
         n = 16 * (nb + 6) * T + r.randrange(1, 16)        # every stream runs past the carry
         res.append(EncCase(n, 2, j % 3, T, rnd_key(r), seed, rnd_bytes(r, n), "ctr-counter-carries-out-of-32-bits"))
+    return res
+
+
+def constant_chunk_cases(ck):
+    """plaintexts containing whole chunks of one byte value (zeros, 0xFF, the pad values): first, middle and LAST chunk, with lengths that
+    are exact chunk multiples and not - what a sparse-file shortcut, a run-length idea or a 'skip empty buffers' optimisation keys on"""
+    r = ck.rng
+    res = []
+    shapes = [("zero-last-chunk", [None, 0], 0), ("zero-last-chunk-exact-multiple", [None, None, 0], 0), ("zero-middle-chunk", [None, 0, None], 5),
+              ("all-zero", [0, 0, 0], 0), ("all-zero-ragged", [0, 0], 7), ("ff-last-chunk", [None, 0xFF], 0), ("pad16-last-chunk", [None, 0x10], 0),
+              ("zero-first-chunk", [0, None], 3), ("pad01-all", [1, 1], 0)]
+    for j, (name, chunks, extra) in enumerate(shapes):
+        plain = b"".join(rnd_bytes(r, CH) if v is None else bytes([v]) * CH for v in chunks) + rnd_bytes(r, extra)
+        res.append(EncCase(len(plain), j % 5, j % 3, [1, 2, 3, 4][j % 4], rnd_key(r), rnd_seed(r), plain, "constant-chunks/" + name))
     return res
 
 
